@@ -1212,17 +1212,24 @@ def redb_scenarios(tier, rnd):
             # one meaning table for the whole file: last wills on keys of their own, patterns from a fixed pool
             for t in range(5):
                 meaning["lw%d" % t] = {"gg": [], "lw": [{"k": ["lwk", "t%d" % t], "v": "w%d" % t}]}
-                meaning["gg%d" % t] = {"gg": [[["a", "#"], ["b", "?"], ["c"], ["a", "b"], ["?", "a"]][t]], "lw": []}
+                # (some grave goods cover willed keys: bury first, publish the wills second)
+                meaning["gg%d" % t] = {"gg": [[["a", "#"], ["b", "?"], ["c"], ["a", "b"], ["?", "a"]][t]] + ([["lwk", "#"]] if t in (1, 3) else []), "lw": []}
         ops = []
+        burst = rnd.random() < 0.3
+        if burst:
+            # a tiny queue between core and writer, and no pause: the core has to wait for the writer
+            ops.append({"op": "config", "channel_buffer_size": 2})
+            hdr2, more = base(rnd, rnd.randint(30, 60))
+            reqs = reqs + [q for q in more if q["op"] in ("set", "cset", "delete")]
         for r in reqs:
             if r["op"] in ("set", "cset") and (r.get("val") == "j:null" or "Cas" in r.get("val", "")):
                 r = dict(r, val="v1")     # D_NULL_RELOAD / D_CAS_SHAPED are C09's subject
             if r["op"] == "set" and r["key"][:2] == ["$SYS", "clients"] and r["key"][-1] == "graveGoods" and r["c"] != "c1":
                 continue        # grave goods of one client only (order of application across clients is unspecified)
             ops.append({"op": "req", "r": r})
-            if rnd.random() < 0.25:
+            if not burst and rnd.random() < 0.25:
                 ops.append({"op": "yield", "ms": rnd.choice([1, 1, 2, 5])})
-        ops.append({"op": "stop", "clean": rnd.random() < 0.3})
+        ops.append({"op": "stop", "clean": rnd.random() < (0.7 if burst else 0.3)})
         scs.append(ops)
     return meaning, scs
 
